@@ -262,7 +262,13 @@ func init() {
 			}
 			b.WriteString("." + f)
 		}
-		b.WriteString("]\n\nend Generated.C12Facts\n")
+		b.WriteString("]\n\n")
+		scw, err := c12SessionCacheWrites(c)
+		if err != nil {
+			return "", err
+		}
+		fmt.Fprintf(&b, "/-- Stores into a `ClientSessionCache` field made by library code (root package, internal/transport,\ninternal/http2, internal/http3, pkg/tls): assignments and composite-literal keys.%s -/\ndef sessionCacheWrites : Nat := %d\n\n", strings.Join(scw, ""), len(scw))
+		b.WriteString("end Generated.C12Facts\n")
 		return b.String(), nil
 	})
 }
@@ -631,4 +637,51 @@ func (r *c12Resolver) subst(e ast.Expr, params map[types.Object]ast.Expr) (ast.E
 		return &ast.StarExpr{X: in}, nil
 	}
 	return nil, fmt.Errorf("%s: helper's Options expression of unsupported shape %T", r.c.fset.Position(e.Pos()), e)
+}
+
+// c12SessionCacheWrites lists every place where library code stores a value into a field named
+// ClientSessionCache (tls.Config / utls.Config): `x.ClientSessionCache = v` and
+// `…{ClientSessionCache: v}`; a store of the literal nil does not count.
+func c12SessionCacheWrites(c *ctx) ([]string, error) {
+	var out []string
+	isNil := func(e ast.Expr) bool {
+		id, ok := e.(*ast.Ident)
+		return ok && id.Name == "nil"
+	}
+	for _, dir := range []string{".", "internal/transport", "internal/http2", "internal/http3", "pkg/tls"} {
+		fm, err := c.files(dir)
+		if err != nil {
+			return nil, err
+		}
+		var names []string
+		for n := range fm {
+			names = append(names, n)
+		}
+		sort.Strings(names)
+		for _, n := range names {
+			ast.Inspect(fm[n], func(x ast.Node) bool {
+				switch v := x.(type) {
+				case *ast.AssignStmt:
+					for i, l := range v.Lhs {
+						se, ok := l.(*ast.SelectorExpr)
+						if !ok || se.Sel.Name != "ClientSessionCache" {
+							continue
+						}
+						if len(v.Rhs) == len(v.Lhs) && isNil(v.Rhs[i]) {
+							continue
+						}
+						p := c.fset.Position(v.Pos())
+						out = append(out, fmt.Sprintf(" %s/%s:%d", dir, n, p.Line))
+					}
+				case *ast.KeyValueExpr:
+					if id, ok := v.Key.(*ast.Ident); ok && id.Name == "ClientSessionCache" && !isNil(v.Value) {
+						p := c.fset.Position(v.Pos())
+						out = append(out, fmt.Sprintf(" %s/%s:%d", dir, n, p.Line))
+					}
+				}
+				return true
+			})
+		}
+	}
+	return out, nil
 }
